@@ -7,7 +7,7 @@
 From Coq Require Import ZArith List Bool.
 From RecordUpdate Require Import RecordSet.
 From Common Require Import Res.
-From Core Require Import World Model Step Reach Rel_Frame Proofs_C03 Proofs_C03b Proofs_C03c.
+From Core Require Import World Model Step Reach Rel_Frame Proofs_C03 Proofs_C03b Proofs_C03c Proofs_C03d.
 Import ListNotations RecordSetNotations.
 Open Scope Z_scope.
 
@@ -191,6 +191,34 @@ Example C03_play_through_example :
   /\ pstate w' = Stopped /\ current w' = None /\ map tlid (World.tl w') = [1; 2; 3].
 Proof. vm_compute. repeat split; reflexivity. Qed.
 Print Assumptions C03_play_through_example.
+
+(* Consume ON (sequential order): when the announced successor x is another entry and playable,
+   next() and the natural end of the track end on x, playing, the audio layer on x's URI - and
+   exactly the finished entry c has left the tracklist (the consume clause of the property). *)
+Theorem C03_next_prediction_consume :
+  forall shuf f x c w,
+  settled_on w c -> pstate w = Playing -> consume w = true -> random w = false ->
+  NoDup (map tlid (World.tl w)) -> In x (World.tl w) -> tlid x <> tlid c -> accepts w x ->
+  next_track shuf (Some c) w = (Ok (Some x), w) ->
+  let w' := run_world shuf (S f) w [Next; Deliver; Deliver; Deliver; Deliver] in
+  current w' = Some x /\ pstate w' = Playing /\ pending w' = None /\ queue w' = []
+  /\ a_uri w' = Some (trk x) /\ a_state w' = Playing
+  /\ World.tl w' = filter (fun t => negb (tlid t =? tlid c)) (World.tl w).
+Proof. exact next_prediction_consume. Qed.
+Print Assumptions C03_next_prediction_consume.
+
+Theorem C03_eot_prediction_consume :
+  forall shuf f x c len w,
+  settled_on w c -> pstate w = Playing -> consume w = true -> random w = false -> a_atf_done w = false ->
+  len_of w (trk c) = Some len ->
+  NoDup (map tlid (World.tl w)) -> In x (World.tl w) -> tlid x <> tlid c -> accepts w x ->
+  announces_eot shuf w c x ->
+  let w' := run_world shuf (S f) w [AboutToFinish; Deliver; Deliver] in
+  current w' = Some x /\ pstate w' = Playing /\ pending w' = None /\ queue w' = []
+  /\ a_uri w' = Some (trk x) /\ a_state w' = Playing
+  /\ World.tl w' = filter (fun t => negb (tlid t =? tlid c)) (World.tl w).
+Proof. exact eot_prediction_consume. Qed.
+Print Assumptions C03_eot_prediction_consume.
 
 (* ---- The recorded known findings, as kernel-checked facts about the model (the model is the
    code line by line; the correspondence replays the same histories on the real Core).  Each
